@@ -1,7 +1,8 @@
 (* Wire encoding shared by the entry points of C03 and C06 (dimension-wise strategy) — definitions only. *)
 From Coq Require Import ZArith List Bool QArith Qcanon Arith.
 From SG Require Model.StdCombi.
-From SG Require Import Base.Sx Base.QcUtil Model.CombiScheme Model.RefTree Model.DimWise Model.DimWiseInterp Model.DimWiseInstall.
+From SG Require Import Base.Sx Base.QcUtil Model.CombiScheme Model.RefTree Model.DimWise Model.DimWiseInterp Model.DimWiseInstall
+     Model.DimWiseFloat.
 Import ListNotations.
 Open Scope Z_scope.
 
@@ -93,13 +94,15 @@ Definition mem_triple (t : nat * nat * nat) (l : list (nat * nat * nat)) : bool 
 Definition mem_pair (t : Z * nat) (l : list (Z * nat)) : bool :=
   existsb (fun u => (fst t =? fst u) && Nat.eqb (snd t) (snd u)) l.
 
-(* the binary64 decisions = exact decision, flipped on the listed exceptions (computed by the harness by evaluating
-   the Python expression in binary64) *)
+(* the binary64 decisions = exact decision, flipped on the exceptions.  The exceptions come from the tables COMPUTED BY COQ with
+   primitive floats (Model/DimWiseFloat.v: the five safety factors of the harness up to m = 64, version 3 up to dim 6, sv 64;
+   Proofs/DimWiseFloatP.v: inside these bounds the decision IS the binary64 evaluation of the Python expression); the lists
+   exc_rb / exc_v3 supplied by the harness (evaluating the Python expression) are only needed beyond these bounds *)
 Definition mk_opts (version : Z) (rebal boundary : bool) (margin sf : Qc) (dim : nat)
            (exc_rb : list (nat * nat * nat)) (exc_v3 : list (Z * nat)) : dw_opts :=
   mkOpts version rebal boundary margin
-         (fun pos pos1 m => xorb (rebalance_dec_exact sf pos pos1 m) (mem_triple (pos, pos1, m) exc_rb))
-         (fun sv d => xorb (v3_dec_exact dim sv d) (mem_pair (sv, d) exc_v3)).
+         (fun pos pos1 m => xorb (rebalance_dec_exact sf pos pos1 m) (mem_triple (pos, pos1, m) (rb_cert_table sf ++ exc_rb)))
+         (fun sv d => xorb (v3_dec_exact dim sv d) (mem_pair (sv, d) (v3_cert_table dim ++ exc_v3))).
 
 (* decoding of the history header shared by sub 0 and sub 4 *)
 Definition decode_history (x : sx) : option (Z * dw_opts * list Qc * list Qc * list (list (list Qc)) * dw_state) + Z :=
@@ -137,7 +140,8 @@ Fixpoint run_checked (o : dw_opts) (steps : list (list (list Qc))) (st : dw_stat
    sub 5: (history install_rebalance trees) -> as sub 0, but the run starts from the state obtained by installing the given
           trees (one interval list per dimension, any levels, coarsening ignored) into the freshly initialised state and
           running refinement_postprocessing (Model/DimWiseInstall.v); state0 = the installed state
-   sub 6: (history install_rebalance trees alpha beta points) -> as sub 4 for a run from an installed state *)
+   sub 6: (history install_rebalance trees alpha beta points) -> as sub 4 for a run from an installed state
+   sub 7: (sf dim) -> (bound, certified rebalancing exceptions of sf, certified version-3 exceptions of dim) *)
 Definition entry_dimwise (sub : Z) (x : sx) : sx :=
   match sub, x with
   | 0, _ =>
@@ -201,6 +205,13 @@ Definition entry_dimwise (sub : Z) (x : sx) : sx :=
       end
     | inr e, _, _, _, _, _ => sx_err e
     | _, _, _, _, _, _ => sx_err 2
+    end
+  | 7, Lv [sf; Zv dim] =>
+    match get_Qc sf with
+    | Some sf => Lv [Zv (Z.of_nat (rb_cert_bound sf));
+                     Lv (map (fun t => match t with (p, p1, m) => Lv [of_nat p; of_nat p1; of_nat m] end) (rb_cert_table sf));
+                     Lv (map (fun t => Lv [Zv (fst t); of_nat (snd t)]) (v3_cert_table (Z.to_nat dim)))]
+    | None => sx_err 2
     end
   | _, _ => sx_err 0
   end.
